@@ -283,10 +283,37 @@ def _coqc_case(name, timeout):
               % (timeout, name), cwd=COQ, timeout=timeout + 20)
 
 
+def header_targets(header):
+    """.vo targets of the DV modules a cases.v header imports (so a clean checkout builds them:
+    the case/model file of a property is usually not in the cone of its Props file)."""
+    out = []
+    txt = strip_coq_comments(header)
+    for m in re.finditer(r"(From\s+DV\s+)?Require\s+(?:Import|Export)\s+", txt):
+        rest = txt[m.end():]
+        e = re.search(r"\.(\s|$)", rest)
+        sentence = rest[:e.start()] if e else rest
+        for mod in sentence.split():
+            if m.group(1):
+                out.append(mod.replace(".", "/") + ".vo")
+            elif mod.startswith("DV."):
+                out.append(mod[3:].replace(".", "/") + ".vo")
+    res = []
+    for t in out:
+        if t not in res and os.path.exists(os.path.join(COQ, t[:-1])):
+            res.append(t)
+    return res
+
+
 def run_cases(pid, header, check_fn, case_terms, shard=250, timeout=900, tag=""):
     """Evaluate the model's `check_fn : case -> bool` on each Coq case term (vm_compute).
 
     Returns (bad_global_indices, errors)."""
+    tg = header_targets(header)
+    if tg:
+        ok, log = coq_make(tg)
+        if not ok:
+            return [], ["building the modules imported by the cases header failed (%s): %s"
+                        % (failing_file(log), log[-1500:])]
     shards = [case_terms[i:i + shard] for i in range(0, len(case_terms), shard)]
     jobs = []
     for k, terms in enumerate(shards):
